@@ -2,7 +2,7 @@
 import re
 import z3
 from core import *
-from execu import Exec, State, Refuse
+from execu import strip_generics, Exec, State, Refuse
 from values import *
 from audit import *
 from loader import load
@@ -210,17 +210,55 @@ def run(ctx, prog):
     A.require('pack/closure-replaces-only-self-references', paths, r_pack_closure, replay=REPLAY)
 
 
-def serde_skips(ctx, prog):
-    """derived Serialize of the packed structures: a member is left out only when it is absent / empty (skip_serializing_if =
-    Option::is_none / is_empty on that member), never because of its value - otherwise Some(default) does not survive pack/unpack"""
+PACKED = (('IotaDocumentMetadata', r'iota_document_metadata::_::<impl at [^>]*>::serialize$'),
+          ('StateMetadataDocument', r'state_metadata::document::_::<impl at [^>]*>::serialize$'))
+
+
+def serde_skips(ctx, prog, items=PACKED, replay=None):
+    """derived Serialize of the given structures: a member is left out only when it is absent / empty (skip_serializing_if =
+    Option::is_none / is_empty on that member), never because of its value - otherwise Some(default) does not survive the text form"""
     A = Auditor(ctx, prog)
-    RB = {'scenario': 'state_metadata', 'cex': {'only': '[metadata]'}}
-    for label, rx in (('IotaDocumentMetadata', r'iota_document_metadata::_::<impl at [^>]*>::serialize$'),
-                      ('StateMetadataDocument', r'state_metadata::document::_::<impl at [^>]*>::serialize$')):
+    RB = replay or {'scenario': 'state_metadata', 'cex': {'only': '[metadata]'}}
+    for label, rx in items:
         fs = prog.find(rx)
         if len(fs) != 1:
             raise Refuse('derived Serialize of %s: %d candidates' % (label, len(fs)))
-        paths, ex = A.paths(fs[0], max_depth=2)
+        try:
+            # (more than ~10 optional members: 2^n paths - go to the call-site form directly)
+            if sum(1 for b in fs[0].blocks.values() if b.term and b.term[0] == 'call' and b.term[2][0] == 'fnitem' and
+                   re.search(r'::is_none$|::is_empty$', strip_generics(b.term[2][1]))) > 10:
+                raise Refuse('path budget (predicted)')
+            paths, ex = A.paths(fs[0], max_depth=2)
+        except Refuse as e:
+            if 'path budget' not in str(e):
+                raise
+            # too many optional members for path enumeration (2^n): decide it on the call sites instead - every callee of the derived
+            # body whose result is a bool is a skip predicate, and each has to be Option::is_none / is_empty on a member of self
+            bad = []
+            n = 0
+            for b in fs[0].blocks.values():
+                t = b.term
+                if not (t and t[0] == 'call'):
+                    continue
+                _, dest, callee, argops, ret = t
+                cname = callee[1] if callee[0] == 'fnitem' else 'indirect'
+                dty = fs[0].locals.get(dest[1] if isinstance(dest, tuple) and len(dest) > 1 and isinstance(dest[1], int) else -1, '') if dest else ''
+                if dty != 'bool':
+                    continue
+                n += 1
+                if not re.search(r'Option(<.*>)?::is_none$|::is_empty$', strip_generics(cname)):
+                    bad.append(cname)
+            from replay import run_replay
+            nm = '%s::serialize/members-skipped-only-when-absent-or-empty' % label
+            if n == 0:
+                ctx.add(Ob(nm, 'M', INCONCLUSIVE, detail='no skip predicate recognised in the derived body'))
+            elif not bad:
+                ctx.add(Ob(nm, 'M', HELD, queries=n, sample='%s: %d skip predicates, all is_none / is_empty (call-site form: path enumeration exceeds the budget)' % (label, n)))
+            else:
+                res = run_replay(RB)
+                ctx.add(Ob(nm, 'M', VIOLATED if res.get('reproduced') else INCONCLUSIVE,
+                           detail='member skipped by %s, not by absence / emptiness; native: %s' % (bad[0].split('::')[-1], res.get('detail', '')[:300]), replay=RB))
+            continue
 
         def r_skip(p, label=label):
             if p.kind != 'return':
